@@ -61,7 +61,11 @@ func History(r *vh.Run, name string, t *chainx.Tree, ids *IDs, decls map[int]*De
 func HistoryVia(r *vh.Run, name string, t *chainx.Tree, ids *IDs, decls map[int]*Decl, sched [][]int, via []bool, db chain.DB, tags ...string) *Rig {
 	c := &vh.Case{Name: name, Model: fmt.Sprintf("elements node %d", t.Net.N.HardforkV2.RequireHeight)}
 	// every other history runs its manager over the atomicity probe
-	ProbeNext = (len(sched)+len(t.Blocks))%2 == 0
+	// (only over MemDB: a probe that is still waiting for the manager's lock when the submission
+	// returns completes later, concurrently with the harness's own unlocked reads; MemDB reads do not
+	// write, CacheDB.Bucket does)
+	_, isMem := db.(*chain.MemDB)
+	ProbeNext = isMem && (len(sched)+len(t.Blocks))%2 == 0
 	rig, err := NewRig(c, t, ids, decls, db)
 	ProbeNext = false
 	if err != nil {
@@ -298,6 +302,63 @@ func DirectedSameTxnBothForks(r *vh.Run, rng *vh.RNG, name string) {
 			r.Add(c)
 		}
 	}
+}
+
+// DirectedAncestorFault: a dependency fails in the middle of a reorg.  Every submission is made with
+// a one-shot failure of Store.AncestorTimestamp armed for the first call the manager makes after a
+// store operation (inside applyTip of a later block of the reorg): the reorg fails and is rolled
+// back.  The same batch is then submitted again without the fault.  After both, everything the
+// store serves — in particular the state stored for every best-chain block — must equal a linear
+// node's: a failed step may not leave a block that looks applied (supplement present) without its
+// complete state.
+func DirectedAncestorFault(r *vh.Run, rng *vh.RNG, name string) {
+	net := StoreNet(rng)
+	var t *chainx.Tree
+	cfg := chainx.GenCfg{Main: 7 + rng.Intn(5), Forks: 3, MaxBranch: 6, Kinds: Menu(), TxPerBlk: 2}
+	if msg := Guarded(func() { t = chainx.GenTree(rng, net, cfg) }); msg != "" {
+		c := &vh.Case{Name: name}
+		c.Oracle("generator-block-rejected", "%s", firstLine(msg))
+		r.Add(c)
+		return
+	}
+	ids := NewIDs()
+	decls := Declare(t, ids)
+	c := &vh.Case{Name: name, Model: fmt.Sprintf("elements node %d", t.Net.N.HardforkV2.RequireHeight), Tags: []string{"directed:ancestor-fault"}}
+	rig, err := NewRig(c, t, ids, decls, chain.NewMemDB())
+	if err != nil {
+		c.Oracle("newdbstore-failed", "%v", err)
+		r.Add(c)
+		return
+	}
+	rig.Prelude()
+	// leaf paths one after the other, each in one batch: every batch after the first is a reorg of
+	// several blocks (when it is heavier)
+	for _, leaf := range t.Leaves() {
+		if !t.AllValid(leaf) {
+			continue
+		}
+		batch := pathTo(t, leaf)
+		rig.FailAncestor = true
+		before := rig.AncestorFailed
+		if rig.Submit(batch) == "panic" {
+			c.Oracle("addblocks-panic", "AddBlocks panicked on batch %v with AncestorTimestamp failing once: %s", batch, rig.PanicMsg)
+			break
+		}
+		rig.FailAncestor = false
+		rig.CompareWithTwin(fmt.Sprintf("after batch %v (AncestorTimestamp failed %d time(s))", batch, rig.AncestorFailed-before))
+		if rig.AncestorFailed == before {
+			continue
+		}
+		if rig.Submit(batch) == "panic" {
+			c.Oracle("addblocks-panic", "AddBlocks panicked when batch %v was submitted again after the failed reorg: %s", batch, rig.PanicMsg)
+			break
+		}
+		rig.CompareWithTwin(fmt.Sprintf("after resubmitting batch %v (its reorg had failed on AncestorTimestamp)", batch))
+	}
+	c.Nontrivial = rig.AncestorFailed > 0
+	c.Info = map[string]any{"ancestor_failures": rig.AncestorFailed, "applies": rig.Applies, "reverts": rig.Reverts}
+	r.CountTag("ancestor-timestamp-failures-injected", rig.AncestorFailed)
+	r.Add(c)
 }
 
 // DirectedRequireHeight: a v1 contract whose window ends exactly at the require height; the chain
@@ -707,6 +768,10 @@ func Run(r *vh.Run) {
 	for i := 0; i < r.Pick(2, 10); i++ {
 		srng := rng.Fork()
 		Safely(r, "same-txn-both-forks", func() { DirectedSameTxnBothForks(r, srng, fmt.Sprintf("same-txn-both-forks%d", i)) })
+	}
+	for i := 0; i < r.Pick(3, 20); i++ {
+		arng := rng.Fork()
+		Safely(r, "ancestor-fault", func() { DirectedAncestorFault(r, arng, fmt.Sprintf("ancestor-fault%d", i)) })
 	}
 	drng := rng.Fork()
 	Safely(r, "directed-require-height", func() { DirectedRequireHeight(r, drng, "directed-require-height") })
